@@ -5,4 +5,4 @@ From CppcmsV Require Import C10.Defs C10.NetDefs.
 Definition keep_types : (N * Z * nat) := (0%N, 0%Z, 0%nat).
 Extraction "c10m.ml" keep_types init_world run step truth hdr_parse hdr_bytes enc_fetch enc_store enc_rise enc_clear
   enc_stats dec_fetch mkset server_of hash_raw srv_handle restart
-  take drop nstep nrun ninit overlay retry_request attempt transmit sock_xfer first_down rstep rev_srv phys.
+  take drop nstep nrun ninit overlay retry_request second_request restore attempt transmit sock_xfer first_down rstep rev_srv phys.
